@@ -89,7 +89,10 @@ class Grid:
             v = v.get('$dt', v.get('$ts'))
         t = pd.Timestamp(v)
         if t.tzinfo is None and self.tz is not None:
-            t = t.tz_localize(self.tz)
+            try:
+                t = t.tz_localize(self.tz)
+            except Exception as e:      # ambiguous or non-existent local time (daylight saving switch)
+                raise ValueError('not a local time of the zone: %s' % t)
         return t
 
     def discount(self, wacc):
